@@ -175,6 +175,126 @@ def parseE : Nat → List String → Option (Expr × List String)
       some (.starred x, rest)
     | _ => none
 
+/-- concrete syntax trees: `a <u:>` · `g d` · `U <Op> d` · `B <0|1> <Op> l r` · `L <Op> <k> d×k` ·
+`C l <k> (<Op> d)×k` · `I b t o` · `tu <0|1> <k> d×k` · `ba <k> d×k` · `li <k> d×k` · `sc <k> d×k` ·
+`di <k> (key val)×k` · `ca f <na> d×na <nk> (<u:>|- d)×nk` · `su v idx` · `st d` · `ab` · `j <u:>` -/
+def parseD : Nat → List String → Option (Doc × List String)
+  | 0, _ => none
+  | fuel + 1, toks =>
+    match toks with
+    | "a" :: s :: rest => do some (.atom (← Proto.decodeStr s), rest)
+    | "j" :: s :: rest => do some (.junk (← Proto.decodeStr s), rest)
+    | "ab" :: rest => some (.absent, rest)
+    | "g" :: rest => do
+      let (d, rest) ← parseD fuel rest
+      some (.group d, rest)
+    | "U" :: op :: rest => do
+      let o ← parseUOp op
+      let (x, rest) ← parseD fuel rest
+      some (.unary o x, rest)
+    | "B" :: sp :: op :: rest => do
+      let o ← parseBOp op
+      let (l, rest) ← parseD fuel rest
+      let (r, rest) ← parseD fuel rest
+      some (.binary (sp == "1") o l r, rest)
+    | "L" :: op :: k :: rest => do
+      let o ← parseLOp op
+      let (xs, rest) ← many (parseD fuel) (← k.toNat?) rest
+      some (.boolop o xs, rest)
+    | "C" :: rest => do
+      let (l, rest) ← parseD fuel rest
+      match rest with
+      | k :: rest =>
+        let arm : List String → Option ((COp × Doc) × List String) := fun toks =>
+          match toks with
+          | op :: rest => do
+            let o ← parseCOp op
+            let (x, rest) ← parseD fuel rest
+            some ((o, x), rest)
+          | [] => none
+        let (arms, rest) ← many arm (← k.toNat?) rest
+        some (.compare l (arms.map (·.1)) (arms.map (·.2)), rest)
+      | [] => none
+    | "I" :: rest => do
+      let (b, rest) ← parseD fuel rest
+      let (t, rest) ← parseD fuel rest
+      let (o, rest) ← parseD fuel rest
+      some (.ifExp b t o, rest)
+    | "tu" :: tr :: k :: rest => do
+      let (xs, rest) ← many (parseD fuel) (← k.toNat?) rest
+      some (.tuple xs (tr == "1"), rest)
+    | "ba" :: k :: rest => do
+      let (xs, rest) ← many (parseD fuel) (← k.toNat?) rest
+      some (.bare xs, rest)
+    | "li" :: k :: rest => do
+      let (xs, rest) ← many (parseD fuel) (← k.toNat?) rest
+      some (.list xs, rest)
+    | "sc" :: k :: rest => do
+      let (xs, rest) ← many (parseD fuel) (← k.toNat?) rest
+      some (.setCall xs, rest)
+    | "di" :: k :: rest => do
+      let pair : List String → Option ((Doc × Doc) × List String) := fun toks => do
+        let (a, rest) ← parseD fuel toks
+        let (b, rest) ← parseD fuel rest
+        some ((a, b), rest)
+      let (kvs, rest) ← many pair (← k.toNat?) rest
+      some (.dict (kvs.map (·.1)) (kvs.map (·.2)), rest)
+    | "ca" :: rest => do
+      let (f, rest) ← parseD fuel rest
+      match rest with
+      | na :: rest =>
+        let (args, rest) ← many (parseD fuel) (← na.toNat?) rest
+        match rest with
+        | nk :: rest =>
+          let kw : List String → Option ((Option (List Char) × Doc) × List String) := fun toks =>
+            match toks with
+            | nm :: rest => do
+              let name ← (if nm == "-" then some none else (Proto.decodeStr nm).map some)
+              let (v, rest) ← parseD fuel rest
+              some ((name, v), rest)
+            | [] => none
+          let (kws, rest) ← many kw (← nk.toNat?) rest
+          some (.call f args (kws.map (·.1)) (kws.map (·.2)), rest)
+        | [] => none
+      | [] => none
+    | "su" :: rest => do
+      let (v, rest) ← parseD fuel rest
+      let (s, rest) ← parseD fuel rest
+      some (.subscript v s, rest)
+    | "st" :: rest => do
+      let (x, rest) ← parseD fuel rest
+      some (.starred x, rest)
+    | _ => none
+
+mutual
+partial def showDoc : Doc → String
+  | .atom s => "a " ++ Proto.encodeStr s
+  | .junk s => "j " ++ Proto.encodeStr s
+  | .absent => "ab"
+  | .group d => "g " ++ showDoc d
+  | .unary op d => "U " ++ op.name ++ " " ++ showDoc d
+  | .binary sp op l r => "B " ++ (if sp then "1 " else "0 ") ++ op.name ++ " " ++ showDoc l ++ " " ++ showDoc r
+  | .boolop op ds => "L " ++ op.name ++ " " ++ showDocs ds
+  | .compare l ops rs =>
+    "C " ++ showDoc l ++ " " ++ toString ops.length ++
+      String.join ((ops.zip rs).map fun (o, r) => " " ++ o.name ++ " " ++ showDoc r)
+  | .ifExp b t o => "I " ++ showDoc b ++ " " ++ showDoc t ++ " " ++ showDoc o
+  | .tuple ds tr => "tu " ++ (if tr then "1 " else "0 ") ++ showDocs ds
+  | .bare ds => "ba " ++ showDocs ds
+  | .list ds => "li " ++ showDocs ds
+  | .setCall ds => "sc " ++ showDocs ds
+  | .dict ks vs =>
+    "di " ++ toString ks.length ++ String.join ((ks.zip vs).map fun (k, v) => " " ++ showDoc k ++ " " ++ showDoc v)
+  | .call f args kwn kwv =>
+    "ca " ++ showDoc f ++ " " ++ showDocs args ++ " " ++ toString kwn.length ++
+      String.join ((kwn.zip kwv).map fun (n, v) =>
+        " " ++ (match n with | some a => Proto.encodeStr a | none => "-") ++ " " ++ showDoc v)
+  | .subscript v i => "su " ++ showDoc v ++ " " ++ showDoc i
+  | .starred d => "st " ++ showDoc d
+partial def showDocs (ds : List Doc) : String :=
+  toString ds.length ++ String.join (ds.map fun d => " " ++ showDoc d)
+end
+
 def showExc : Exc → String
   | .maxlines => "_Maxlines" | .linebreak => "_Linebreak" | .valueError => "ValueError"
   | .indexError => "IndexError" | .fuel => "Fuel"
@@ -188,6 +308,13 @@ def handle (args : List String) : String :=
       | .ok r => "ok " ++ (if r.isComplete then "1 " else "0 ") ++ Proto.encodeStr (itemsText r.items)
       | .error x => "raise " ++ showExc x
     | _, _, _ => "bad-op"
+  | "parse" :: toks =>
+    match parseD (toks.length + 1) toks with
+    | some (d, []) =>
+      match parseDoc 1 d with
+      | some t => "ok " ++ Proto.encodeStr d.flatten ++ " " ++ showDoc t
+      | none => "none " ++ Proto.encodeStr d.flatten
+    | _ => "bad-op"
   | _ => "bad-op"
 
 end Pyval
